@@ -16,8 +16,10 @@ RULE = (
     "thorough). Non-trivial = 0<F<1, or F=0 with identical unsigned groups, or F=1 with different presentations; at "
     "least one side not in graph form. Distinct = SHA-1 of the descriptor."
 )
-ASSUMPTIONS = ["reference |<a|b>|^2 from dense vectors (n<=8), values are 0 or 2^-k, tolerance 1e-9"]
-REQUIRED_CLASSES = {"pairs": ["F=1", "F=0_sign_only", "F=0_other", "0<F<1", "non_graph_form", "negative_sign", "has_Y"]}
+ASSUMPTIONS = ["reference |<a|b>|^2 from dense vectors (n<=8), values are 0 or 2^-k, tolerance 1e-9",
+               "n >= 9: reference overlap by projecting one generating set onto the other in the Pauli algebra (vf/ref/pauli.py, self-tested against dense vectors)"]
+REQUIRED_CLASSES = {"pairs": ["F=1", "F=0_sign_only", "F=0_other", "0<F<1", "non_graph_form", "negative_sign", "has_Y"],
+                    "large": ["F=1", "F=0_sign_only", "0<F<1", "non_graph_form", "negative_sign", "has_Y"]}
 
 
 def _fid(sub, cls, ta, tb):
@@ -105,6 +107,73 @@ def check_pair(case, sub="pairs"):
     return Info(nontrivial=nontrivial, classes=cl)
 
 
+def check_large(case, sub="large"):
+    """9..24 qubits: the same clauses against the Pauli-algebra overlap (no dense vectors)"""
+    import graphiq.backends.stabilizer.functions.metric as sfm
+    from graphiq.backends.stabilizer.functions.stabilizer import canonical_form
+    from graphiq.backends.stabilizer.state import Stabilizer
+
+    a, b = case["a"], case["b"]
+    n = a["n"]
+    b = dict(b, n=n)
+    Sa, Da, _ = gs.present(a, dense=False)
+    Sb, Db, _ = gs.present(b, dense=False)
+    Sa2, Da2, _ = gs.present(dict(a, rowops=case.get("alt", []), M=None), dense=False)
+    F = rp.stabilizer_overlap2(Sa, Sb, n)
+    if abs(rp.stabilizer_overlap2(Sb, Sa, n) - F) > 1e-12 or rp.stabilizer_overlap2(Sa, Sa2, n) != 1.0:
+        raise AssertionError("reference overlap inconsistent")
+    same_unsigned = rp.group_key([(p[0], p[1], 0) for p in Sa], n) == rp.group_key([(p[0], p[1], 0) for p in Sb], n)
+    fc = "F=1" if F == 1.0 else (("F=0_sign_only" if same_unsigned else "F=0_other") if F == 0.0 else "0<F<1")
+    cl = sorted(set(gs.classes(Sa, n) + gs.classes(Sb, n))) + [fc, "n>=9"]
+    icls = fc
+    ta, tb, ta2 = gs.clifford_tableau(Sa, Da, n), gs.clifford_tableau(Sb, Db, n), gs.clifford_tableau(Sa2, Da2, n)
+    f_ab = guarded(sub, icls, sfm.fidelity, ta, tb)
+    f_ba = guarded(sub, icls, sfm.fidelity, tb, ta)
+    if abs(f_ab - F) > 1e-9:
+        raise Violation(sub, "fidelity-value", "metric.fidelity", icls, "fidelity=%r, |<a|b>|^2=%r (n=%d)" % (float(f_ab), F, n))
+    if abs(f_ba - f_ab) > 1e-12:
+        raise Violation(sub, "fidelity-asymmetric", "metric.fidelity", icls, "%r vs %r" % (float(f_ab), float(f_ba)))
+    f_aa = guarded(sub, icls, sfm.fidelity, ta, ta2)
+    if abs(f_aa - 1) > 1e-9:
+        raise Violation(sub, "fidelity-value", "metric.fidelity", "same-state", "two presentations of one state: F=%r" % float(f_aa))
+    eq = guarded(sub, icls, lambda: Stabilizer(ta.copy()) == Stabilizer(tb.copy()))
+    if bool(eq) != (F == 1.0):
+        raise Violation(sub, "equality", "Stabilizer.__eq__", icls, "== gives %s, states %s" % (eq, "equal" if F == 1.0 else "differ"))
+    if not guarded(sub, icls, lambda: Stabilizer(ta.copy()) == Stabilizer(ta2.copy())):
+        raise Violation(sub, "equality", "Stabilizer.__eq__", "same-state", "two presentations of one state compare unequal")
+    ca = guarded(sub, icls, lambda: canonical_form(ta.to_stabilizer()))
+    ca2 = guarded(sub, icls, lambda: canonical_form(ta2.to_stabilizer()))
+    cb = guarded(sub, icls, lambda: canonical_form(tb.to_stabilizer()))
+    if not (ca == ca2):
+        raise Violation(sub, "canonical-form", "canonical_form", "same-state", "canonical form depends on the generating set")
+    if (ca == cb) != (F == 1.0):
+        raise Violation(sub, "canonical-form", "canonical_form", icls, "canonical forms equal=%s but F=%r" % (ca == cb, F))
+    if rp.group_key(rp.stabilizer_paulis(ca), n) != rp.group_key(Sa, n):
+        raise Violation(sub, "canonical-form", "canonical_form", icls, "canonical form denotes another state")
+    return Info(nontrivial=(fc in ("0<F<1", "F=0_sign_only") or fc == "F=1"), classes=cl)
+
+
+@st.composite
+def strat_large(draw, tier="quick"):
+    a = draw(gs.st_state(9, 16 if tier == "quick" else 24, max_word=60, max_rowops=15))
+    n = a["n"]
+    kind = draw(st.sampled_from(["indep", "same", "sign", "local", "ent", "few", "few"]))
+    extra = []
+    if kind == "indep":
+        b = draw(gs.st_state(n, n, max_word=60, max_rowops=15))
+    else:
+        if kind == "sign":
+            extra = [[draw(st.sampled_from(["X", "Z", "Y"])), draw(st.integers(0, n - 1))]]
+        elif kind == "local":
+            extra = [[draw(st.sampled_from(["H", "P", "Pdag"])), draw(st.integers(0, n - 1))]]
+        elif kind == "ent":
+            extra = [[draw(st.sampled_from(["CNOT", "CZ"])), draw(st.integers(0, n - 1)), draw(st.integers(0, n - 1))]]
+        elif kind == "few":
+            extra = draw(gs.st_word(n - 1, 5))
+        b = {"n": n, "word": a["word"] + extra, "rowops": draw(gs.st_rowops(n - 1, 15))}
+    return {"a": a, "b": b, "alt": draw(gs.st_rowops(n - 1, 12))}
+
+
 @st.composite
 def strat_pair(draw, tier="quick"):
     mx = 6 if tier == "quick" else 8
@@ -171,6 +240,8 @@ def enum_pairs(tier, seed):
 SUBS = [
     Sub("pairs", check_pair, strategy=lambda tier: strat_pair(tier), n={"quick": 250, "thorough": 4000},
         doc="random related/independent pairs, n<=6 (quick) / 8 (thorough), independent presentations"),
+    Sub("large", check_large, strategy=lambda tier: strat_large(tier), n={"quick": 40, "thorough": 1500},
+        doc="9..16 (quick) / 24 (thorough) qubits against the Pauli-algebra overlap (self-tested against dense vectors)"),
     Sub("complete", lambda c: check_pair(c, "pairs"), enum=enum_pairs,
         doc="all ordered pairs of the 6 / 60 stabilizer states for n=1,2 (n=3: 6000 sampled pairs in quick, 250k in thorough, all 1080^2 with "
             "VERIF_FULL=1), random generating set per side"),
